@@ -56,14 +56,14 @@ func (p vPools) Get(ctx context.Context, name string, opts metav1.GetOptions) (*
 	if name != "p1" || size < 0 {
 		return &v1alpha1.Pool{}, apierrors.NewNotFound(vPoolGR, name)
 	}
-	return &v1alpha1.Pool{ObjectMeta: metav1.ObjectMeta{Name: name, Namespace: "kube-system"}, Size: size}, nil
+	return &v1alpha1.Pool{ObjectMeta: metav1.ObjectMeta{Name: name, Namespace: "kube-system"}, Size: size, PreAllocateIP: p.c.pw.StoredPoolPreAllocate()}, nil
 }
 
 func (p vPools) Create(ctx context.Context, pool *v1alpha1.Pool, opts metav1.CreateOptions) (*v1alpha1.Pool, error) {
 	if err := p.fault("create"); err != nil {
 		return &v1alpha1.Pool{}, err
 	}
-	p.c.pw.SetPoolSize(pool.Size)
+	p.c.pw.SetStoredPool(pool.Size, pool.PreAllocateIP)
 	return pool, nil
 }
 
@@ -71,7 +71,7 @@ func (p vPools) Update(ctx context.Context, pool *v1alpha1.Pool, opts metav1.Upd
 	if err := p.fault("update"); err != nil {
 		return &v1alpha1.Pool{}, err
 	}
-	p.c.pw.SetPoolSize(pool.Size)
+	p.c.pw.SetStoredPool(pool.Size, pool.PreAllocateIP)
 	return pool, nil
 }
 
@@ -87,7 +87,7 @@ func VerifC07_q_poolRequestFaults() {
 	before := pw.PoolCount()
 	size := nondetInt(0, 4)
 	cl := &vPoolClient{pw: pw, failAt: nondetInt(0, 2)}
-	c := &PoolController{Client: cl, IPAM: pw.IPAM(), LockPoolFunc: pw.LockPool}
+	c := &PoolController{Client: cl, PoolLister: pw.PoolLister(), IPAM: pw.IPAM(), LockPoolFunc: pw.LockPool}
 	verifSetRequestEntity(Pool{Name: "p1", Size: size, PreAllocateIP: true})
 	c.CreateOrUpdate(vReq, vResp)
 	verifReach("pool-request-answered")
@@ -98,4 +98,33 @@ func VerifC07_q_poolRequestFaults() {
 	verifAssert("C07/refused-pool-request-allocates-nothing", code < 400 || after <= before, "a pool request that was answered with an error allocated addresses")
 	verifAssert("C07/agree-pool-request", pw.Agree(), "memory and store disagree")
 	verifAssert("C07/no-lock-held-pool-request", pw.NoLockHeld(), "a lock is still held")
+}
+
+// BOUND: topologies {0,1}; pool p1 with a Pool object of size 0..3 (pre-allocation flag set or not) and 0..1 pods already scheduled in it; two POST /v1/pool requests in a row (the real CreateOrUpdate) for symbolic sizes 0..3 with preAllocateIP; the informer cache of Pool objects catches up between the requests or not (it still holds the object as it was before the first request); after each request the pool must not hold more addresses than before the request or than the stored Pool object's size
+func VerifC07_q_poolRequestsLaggingCache() {
+	pw := schedulerplugin.VerifNewPoolWorld(nondetChoice(2), nondetInt(0, 3), nondetChoice(2))
+	if pw == nil {
+		return
+	}
+	if nondetBool() { // the pool was created with the pre-allocation flag
+		pw.SetStoredPool(pw.StoredPoolSize(), true)
+		pw.SyncListers()
+	}
+	cl := &vPoolClient{pw: pw}
+	c := &PoolController{Client: cl, PoolLister: pw.PoolLister(), IPAM: pw.IPAM(), LockPoolFunc: pw.LockPool}
+	for i := 0; i < 2; i++ {
+		before := pw.PoolCount()
+		size := nondetInt(0, 3)
+		verifSetRequestEntity(Pool{Name: "p1", Size: size, PreAllocateIP: true})
+		c.CreateOrUpdate(vReq, vResp)
+		after := pw.PoolCount()
+		inForce := pw.StoredPoolSize()
+		verifAssert("C07/pool-requests-within-size-in-force", after <= before || (inForce >= 0 && after <= inForce), "a pool update request left the pool with more addresses than the size in force (the stored Pool object's)")
+		if nondetBool() {
+			pw.SyncListers()
+		}
+	}
+	verifReach("two-pool-requests-answered")
+	verifAssert("C07/agree-pool-requests", pw.Agree(), "memory and store disagree")
+	verifAssert("C07/no-lock-held-pool-requests", pw.NoLockHeld(), "a lock is still held")
 }
